@@ -43,9 +43,15 @@ type codecEngine struct {
 	n     int
 	seen  map[string]bool
 	mirs  map[string]*extract.MirOut
+	noK   bool
 }
 
 func (e *codecEngine) add(c, d string) {
+	if e.noK {
+		// the generated tables are missing: no correspondence cases, the monitors still run
+		e.rep.Evaluations++
+		return
+	}
 	e.cases = append(e.cases, c)
 	e.descr = append(e.descr, d)
 	e.rep.Evaluations++
@@ -517,6 +523,9 @@ func (e *codecEngine) shareAll(s *crypto.Scheme, sh *key.Share) {
 
 func (e *codecEngine) infoJSONLeaves(name string, src bool) [][]string {
 	m := e.mirs[name]
+	if m == nil {
+		return nil
+	}
 	if src {
 		return m.SrcLeaves
 	}
@@ -681,7 +690,7 @@ func (e *codecEngine) beaconAll(b *common.Beacon) {
 	check("wire", beacon.VerifProtoToBeacon(q), err, "beaconToProto", "protoToBeacon")
 	js, err := b.Marshal()
 	if err == nil {
-		if r, jerr := jsonRecord(js, e.mirs["Beacon.MarshalJSON"].DstLeaves); jerr == nil {
+		if r, jerr := jsonRecord(js, e.infoJSONLeaves("Beacon.MarshalJSON", false)); jerr == nil {
 			b3 := new(common.Beacon)
 			if err = b3.Unmarshal(js); err == nil {
 				bj.mid, bj.decoded, bj.ok = r, cv.rec(b3), true
@@ -799,10 +808,9 @@ func (e *codecEngine) fields() {
 }
 
 func newCodecEngine(name string, seed int64, tier string) (*codecEngine, error) {
-	outs, err := extract.Mirrors(cli.Repo)
-	if err != nil {
-		return nil, err
-	}
+	// a translator that cannot read the sources is reported by the translator step itself; the
+	// engine still runs everything that does not need the generated tables (all monitors)
+	outs, terr := extract.Mirrors(cli.Repo)
 	e := &codecEngine{rep: emit.NewReport(name, seed, tier), g: newGen(seed), cv: &conv{roots: extract.MirRoots()}, seen: map[string]bool{}, mirs: map[string]*extract.MirOut{}}
 	var reg func(o *extract.MirOut)
 	reg = func(o *extract.MirOut) {
@@ -814,6 +822,11 @@ func newCodecEngine(name string, seed int64, tier string) (*codecEngine, error) 
 	for _, o := range outs {
 		reg(o)
 	}
+	if terr != nil {
+		e.rep.Extra["translator_error"] = terr.Error()
+		e.noK = true
+	}
+	var err error
 	e.tmp, err = os.MkdirTemp("", "zzv-codec-")
 	return e, err
 }
